@@ -31,6 +31,7 @@ EXPLANATION = (
 NONTRIVIAL_RULE = "had at least one matching descriptor (static) / fired or was blocked by a candidate (engine)"
 BOUNDS = {
     "descriptor_static": "2 or 3 pairwise distinct keys and an event type, each an arbitrary (unicode) str of <= L chars (L in the item label); the event - and in the 'prefixed key' items also the first key - optionally prefixed by one of '', 'done.', 'error.', 'after.', 'xstate.'",
+    "descriptor_smt": "2 or 3 pairwise distinct keys and an event type, each a string of ANY length over z3's full character range (the number of keys is the only bound); decided by executing the AST of _matching_descriptors on z3 string terms (vf/ast2smt.py), one solver query per branch and one per return",
     "descriptor_engine": "fixed two-level machine (keys a, a.*, a.b, a.b.*, *, done.x at child and root, two guarded candidates per key, optional null entry per variant); event type = optional internal prefix + arbitrary str of <= L chars; guard outcomes: 5 shared booleans + one three-valued (true/false/raise) guard, read lazily",
 }
 ASSUMPTIONS = [
@@ -292,7 +293,117 @@ def descriptor_engine(pre: int, tail: str, b0: bool, b1: bool, b2: bool, b3: boo
     return verdict(ok, nontrivial=want is not None or null_at is not None)
 
 
-OBLIGATIONS = {"descriptor_static": descriptor_static, "descriptor_engine": descriptor_engine}
+# ---------------------------------------------------------------------------
+# unbounded string length: AST -> z3 (vf/ast2smt.py), no CrossHair
+# ---------------------------------------------------------------------------
+
+def descriptor_smt(k1: str, k2: str, k3: str, ev: str) -> bool:
+    """Native body (used by the replay of a solver model): the real function on a real dict against the reference.
+    The deciding run is ``_smt_descriptor`` below (attribute ``smt_runner``), which executes the function's AST on z3
+    string terms of unbounded length.
+
+    post: _
+    """
+    from xstate_statemachine.base_interpreter import BaseInterpreter
+
+    keys = [k1, k2] + ([k3] if P.get("nkeys", 2) >= 3 else [])
+    if len(set(keys)) != len(keys):
+        return verdict(True, nontrivial=False)
+    got = BaseInterpreter._matching_descriptors({k: [] for k in keys}, ev)
+    want = model.descriptor_ref(keys, ev)
+    g = model.dedup(list(got))
+    w = model.dedup(want)
+    ok = g == w
+    if not ok:
+        _note(f"_matching_descriptors({keys!r}, {ev!r}) = {list(got)!r}, reference {want!r}")
+    return verdict(ok, nontrivial=len(w) > 0)
+
+
+def _smt_spec(z3: Any, keys: List[Any], e: Any, res: List[Any]) -> Any:
+    """The statement of C20's matching clause as a formula over the k keys, the event and the returned list (any
+    length of strings): membership = exactly the matching keys; order of first occurrences = identical key, then
+    partials by strictly decreasing length, then '*'."""
+    internal = z3.Or(*[z3.PrefixOf(z3.StringVal(p), e) for p in model.INTERNAL_PREFIXES])
+    star = z3.StringVal("*")
+    m = []
+    for k in keys:
+        pre = z3.SubString(k, 0, z3.Length(k) - 2)
+        partial = z3.And(k != star, z3.SuffixOf(z3.StringVal(".*"), k),
+                         z3.Or(e == pre, z3.PrefixOf(z3.Concat(pre, z3.StringVal(".")), e)))
+        m.append(z3.And(z3.Length(e) > 0, z3.Or(k == e, z3.And(z3.Not(internal), z3.Or(partial, k == star)))))
+    cl = []
+    for r in res:
+        cl.append(z3.Or(*[z3.And(r == k, mi) for k, mi in zip(keys, m)]))
+    for k, mi in zip(keys, m):
+        cl.append(z3.Implies(mi, z3.Or(*[r == k for r in res]) if res else z3.BoolVal(False)))
+
+    def rank(x: Any) -> Any:
+        return z3.If(x == e, 0, z3.If(x == star, 2, 1))
+
+    def less(a: Any, b: Any) -> Any:
+        return z3.Or(rank(a) < rank(b), z3.And(rank(a) == 1, rank(b) == 1, z3.Length(a) > z3.Length(b)))
+
+    def first(j: int) -> Any:
+        return z3.And(*[res[j] != res[i] for i in range(j)]) if j else z3.BoolVal(True)
+
+    for j in range(len(res)):
+        for j2 in range(j + 1, len(res)):
+            cl.append(z3.Implies(z3.And(first(j), first(j2)), less(res[j], res[j2])))
+    return z3.And(*cl) if cl else z3.BoolVal(True)
+
+
+def _smt_descriptor(fn: Any, timeout: float = 60.0, per_path_timeout: float = 20.0) -> Dict[str, Any]:
+    import z3
+
+    from vf import ast2smt, kf
+    from xstate_statemachine.base_interpreter import BaseInterpreter
+
+    n = 3 if P.get("nkeys", 2) >= 3 else 2
+    ks = [z3.String(f"k{i + 1}") for i in range(n)]
+    e = z3.String("ev")
+    assumptions = [z3.Distinct(*ks)]
+    twin = kf.TWIN
+
+    def on_return(ex: Any, value: Any) -> Any:
+        if not isinstance(value, list) or not all(isinstance(v, str) or z3.is_string(v) for v in value):
+            raise ast2smt.Unsupported("return value is not a list of strings")
+        res = [z3.StringVal(v) if isinstance(v, str) else v for v in value]
+        if twin:
+            r, mdl = ex.check()
+            return mdl if r == "sat" else None
+        neg = z3.Not(_smt_spec(z3, ks, e, res))
+        printable = [z3.InRe(v, z3.Star(z3.Range(" ", "~"))) for v in ks + [e]]
+        r, mdl = ex.check(neg, *printable)
+        if r == "sat":
+            return mdl
+        r, mdl = ex.check(neg)
+        if r == "unknown":
+            raise ast2smt.Unsupported("both solvers answered unknown on the property query")
+        return mdl if r == "sat" else None
+
+    out = ast2smt.explore(BaseInterpreter._matching_descriptors,
+                          lambda: {"on_map": ast2smt.SymMap(list(ks)), "event_type": e}, assumptions, on_return, timeout,
+                          names=[str(k) for k in ks] + ["ev"])
+    res: Dict[str, Any] = {"obligation": "descriptor_smt", "verdict": out["verdict"], "paths": out["paths"],
+                           "z3_queries": out["z3_queries"], "solver_s": out["solver_s"], "wall_s": out["wall_s"],
+                           "message": out["message"] or f"AST->SMT of _matching_descriptors: {out['paths']} paths, every return checked against the spec formula (strings of any length, {n} keys); {out.get('cvc5_queries', 0)} queries went to cvc5 after z3 answered unknown",
+                           "cex": None}
+    if out["verdict"] == "refuted":
+        mdl = out["model"]
+        cex = {f"k{i + 1}": ast2smt.model_str(mdl, ks[i]) for i in range(n)}
+        cex.setdefault("k3", "")
+        cex["ev"] = ast2smt.model_str(mdl, e)
+        res["cex"] = cex
+        kf.HITS["oracle"] += 1
+    else:
+        kf.HITS["oracle"] += out["paths"]
+        kf.HITS["nontrivial"] += out["paths"]
+    return res
+
+
+descriptor_smt.smt_runner = _smt_descriptor  # type: ignore[attr-defined]
+
+OBLIGATIONS = {"descriptor_static": descriptor_static, "descriptor_engine": descriptor_engine, "descriptor_smt": descriptor_smt}
 
 
 def items(tier: str, seed: int) -> List[Dict[str, Any]]:
@@ -304,6 +415,8 @@ def items(tier: str, seed: int) -> List[Dict[str, Any]]:
                 "path_timeout": 40, "label": f"descriptor_static[3keys,L={2 if quick else 3}]"})
     out.append({"ob": "descriptor_static", "params": {"L": 2 if quick else 3, "nkeys": 2, "kprefix": True}, "timeout": 300 if quick else 1800,
                 "path_timeout": 40, "label": f"descriptor_static[2keys,prefixed key,L={2 if quick else 3}]"})
+    out.append({"ob": "descriptor_smt", "params": {"nkeys": 2}, "timeout": 200, "label": "descriptor_smt[2keys,any length]"})
+    out.append({"ob": "descriptor_smt", "params": {"nkeys": 3}, "timeout": 300 if quick else 1200, "label": "descriptor_smt[3keys,any length]"})
     L = 3 if quick else 5
     for v in range(len(_VARIANTS)):
         for eng in (0, 1):
